@@ -105,12 +105,19 @@ impl Command for CommandImpl {
                 (start, end)
             };
 
+            if start < 0 {
+                return CommandResult::Error("Start index cannot be negative.".to_string());
+            }
+
             let start_index: usize = start.try_into().unwrap();
             let end_index: usize = end.try_into().unwrap();
 
-            let sub_string = &string_value.as_str()[start_index..end_index];
-
-            CommandResult::Continue(Some(sub_string.to_string()))
+            match string_value.get(start_index..end_index) {
+                Some(sub_string) => CommandResult::Continue(Some(sub_string.to_string())),
+                None => CommandResult::Error(
+                    "Indexes must be on character boundaries.".to_string(),
+                ),
+            }
         }
     }
 }
